@@ -24,7 +24,9 @@ DECIDED = ["R24a every route is authenticated (TABLE over the router constructio
            "R24c effect => permission for the 18 db handlers (DOM cut-sets, guard arguments bound to caller and subject)",
            "R24d one classification of queries across required_role / t_exec / t_exec_mut (TABLE, 18 variants)",
            "R24e (MIR part) readers get the read lock and an immutable transaction",
-           "R24f logout / role removal reach the removing primitive on every success path (MUST)"]
+           "R24f logout / role removal reach the removing primitive on every success path (MUST)",
+           "R24g the (user, owner, db) look-ups answer for exactly that database (backward data slice)",
+           "R24h at most one role edge per (user, db): frozen role writers, edge created only if none exists (WHO + DOM)"]
 UNDECIDED = ["correctness of the graph searches implementing role look-up over histories of role changes (C14/C15/C17)",
              "routes behind the `studio` cargo feature (not part of the analysed configuration)",
              "routes::user::logout / cluster::logout with `?session=<id>` remove the session with that id without "
@@ -1195,6 +1197,54 @@ def r24f(ctx):
                "`%s` no longer executes a mutating query under the write lock" % fn, b.where)
 
 
+ROLE_WRITERS = {
+    SDB + "insert_db": "a new database: the owner's admin edge is its first role edge",
+    SDB + "insert_db_user": "grants / changes a role: updates the existing edge or creates the only one",
+}
+
+
+def r24h(ctx):
+    """At most ONE role edge per (user, db): remove_db_user deletes one edge (`limit(1)`), the role look-ups read one.
+    Role key-values are therefore written only by the frozen writers, and insert_db_user creates an edge only when its
+    search for an existing role edge found none.  (A second writer - e.g. an ownership transfer that always inserts an
+    admin edge - leaves a user with two edges: removing the role later removes only one of them.)"""
+    fa = ctx.facts
+    writers = {}
+    for b in fa.bodies.values():
+        if b.crate != "agdb_server":
+            continue
+        for bi, st in cfg.assigns(b):
+            for o in cfg.rvalue_operands(st["r"]):
+                c = cfg.op_const(o)
+                if c and str(c.get("c", "")).endswith("server_db::ROLE"):
+                    writers.setdefault(common.norm(b.root or b.npath), b.loc(bi))
+    for w, where in sorted(writers.items()):
+        ok = w in ROLE_WRITERS
+        ctx.ob("R24h", "role-writer:" + w.split("::")[-1], ok, ROLE_WRITERS.get(w, "") if ok else
+               "`%s` writes a `role` key-value but is not one of the frozen writers %s: a second role edge between a user "
+               "and a database survives remove_db_user (which deletes one edge)" % (w, sorted(x.split("::")[-1] for x in ROLE_WRITERS)), where)
+    for w in ROLE_WRITERS:
+        ctx.ob("R24h", "role-writer-present:" + w.split("::")[-1], w in writers, "present" if w in writers else
+               "frozen role writer `%s` not found (anchor missing)" % w, "")
+    cl = ctx.anchor("R24h", SDB + "insert_db_user::{closure#0}::{closure#0}")
+    if cl:
+        edges_calls = [i for i, t in cfg.calls(cl) if last(cfg.callee(t) or "") == "edges"]
+        found1 = []
+        for bi, st in cfg.assigns(cl):
+            r = st["r"]
+            if r["k"] == "bin" and r["op"] in ("Eq", "Ne"):
+                c = cfg.op_const(r["b"]) or cfg.op_const(r["a"])
+                o = cfg.op_origin(cl, r["a"]) or cfg.op_origin(cl, r["b"])
+                if c is not None and c.get("v") == 1 and o and o[1][-1:] == [".result"]:
+                    for sw in cfg.bool_switches(cl, cfg.derived_locals(cl, [st["l"][0]])):
+                        found1.append(sw["true_edge"] if r["op"] == "Eq" else sw["false_edge"])
+        ok = bool(edges_calls and found1) and all(cfg.find_path(cl, [0], [i], removed_edges=[e for e in found1]) is not None and
+                                                  all(cfg.find_path(cl, [e[1]], [i]) is None for e in found1) for i in edges_calls)
+        ctx.ob("R24h", "insert_db_user:edge-only-if-none", ok,
+               "a role edge is created only when the search for an existing one returned nothing" if ok else
+               "insert_db_user can create a role edge although one exists already", cl.where)
+
+
 def run(ctx):
     rows = r24a(ctx)
     r24b(ctx)
@@ -1203,6 +1253,7 @@ def run(ctx):
     r24e(ctx)
     r24f(ctx)
     r24g(ctx)
+    r24h(ctx)
     # R24e (type-level half): exec / Transaction::exec reject a mutating query at compile time (E3 witnesses)
     from rules.C23 import witness
     witness(ctx, "C24")
